@@ -216,6 +216,30 @@ def run_recipe(C, drv, rc):
             else:
                 p_.right = ch
         check_tree(C, drv, p_, 'link-order', recipe=rc)
+    elif rc['kind'] == 'mirror':
+        # the two children of one binary node re-seated inside their parent (a mirror: left <-> right), flags following,
+        # measured before and after; every order of the four assignments the sequence rc['order'] names
+        import random as _random
+        r_ = _random.Random(rc['seed'])
+        root = T.build(_tup(rc['shape']))
+        nodes, _ = T.walk(root)
+        bins = [n for n in nodes if n.left is not None and n.right is not None]
+        if not bins:
+            return
+        n_ = bins[rc['at'] % len(bins)]
+        if rc.get('measure_first'):
+            _ = (root.n_nodes, root.n_leaves, root.min_depth, root.max_depth, root.pre_order, root.post_order)
+        a, b = n_.left, n_.right
+        for step in rc['order']:
+            if step == 'left':
+                n_.left = b
+            elif step == 'right':
+                n_.right = a
+            elif step == 'flag-b':
+                b.flag = True
+            else:
+                a.flag = False
+        check_tree(C, drv, root, 'mirror', recipe=rc)
     elif rc['kind'] == 'copies':
         import gc, pickle, random as _random
         r_ = _random.Random(rc['seed'])
@@ -364,6 +388,10 @@ def check(ctx):
         for side in (False, True):
             for order in _it.permutations(['flag', 'parent', 'attach']):
                 run_recipe(C, drv, dict(kind='link-order', side=side, order=list(order)))
+        # children re-seated inside their own parent (mirrored), in every order of the four assignments
+        mshapes = [sh for sh in T.shapes_upto(3) if 'B' in str(sh)]
+        for k, order in enumerate(_it.permutations(['left', 'right', 'flag-b', 'flag-a'])):
+            run_recipe(C, drv, dict(kind='mirror', shape=C.rng.choice(mshapes), at=C.rng.randrange(8), order=list(order), seed=k, measure_first=bool(k % 2)))
         # trees produced by the GP operators from parents that had been traversed before
         for k in range(40 if ctx['tier'] == 'quick' else 400):
             run_recipe(C, drv, dict(kind='gp', fa=C.rng.choice(shapes2), mo=C.rng.choice(shapes2),
